@@ -46,7 +46,8 @@ class C10(Check):
         "logging one-shot generator; k in 0..#results results are pulled. Oracle (event log): (1) the log is empty "
         "after construction; (2) the first k results equal the first k of a full run of a fresh identical query; "
         "(3) the k-run's log equals the full run's log cut at its k-th yield; (4) single-variable queries pull at "
-        "most index(k-th satisfying element)+2 domain elements; (5) a single-variable query over an unbounded "
+        "most index(k-th satisfying element)+2 domain elements; (4b) a selected variable that occurs in no condition is "
+        "pulled at most up to the furthest element the first k results mention, +2 (while no value of it repeats among them); (5) a single-variable query over an unbounded "
         "(cyclic) generator domain delivers its first result within one cycle of pulls. Non-trivial: 0 < k < #results and the domains have elements beyond what k results "
         "need. Distinct = distinct IR."
     )
@@ -154,6 +155,28 @@ class C10(Check):
                         break
             if idx is not None and ppulls.get(i, 0) > idx + 2:
                 return bad("pulled_too_much", f"{k} results need {idx + 1} domain elements, {ppulls.get(i)} were pulled")
+        # a selected variable that occurs nowhere else cannot be constrained by anything: the first k results need
+        # its domain only up to the furthest element they mention
+        if k > 0 and ir["sel"]["terms"] and all(t["t"] == "var" for t in ir["sel"]["terms"]):
+            elsewhere = set()
+            for c in ir["conds"]:
+                elsewhere |= lang.close_refs(ir, lang.cond_refs(c))
+            for col, t in enumerate(ir["sel"]["terms"]):
+                i = t["i"]
+                v = ir["vars"][i]
+                if ("var", i) in elsewhere or v.get("sub") is not None or v.get("plain") or v.get("local"):
+                    continue
+                if sum(1 for t2 in ir["sel"]["terms"] if t2["i"] == i) != 1:
+                    continue
+                dom = v["dom"]
+                column = [part[j][col] for j in range(k)]
+                if len(set(column)) != len(column):
+                    continue  # a value came back: the variable is an inner loop that was (rightly) exhausted and restarted
+                furthest = max(dom.index(part[j][col][1]) for j in range(k) if part[j][col][0] == "obj")
+                out.classes.append("free_selected_variable")
+                if ppulls.get(i, 0) > furthest + 2:
+                    return bad("free_variable_pulled_too_much",
+                               f"the first {k} results mention v{i} up to domain position {furthest}, {ppulls.get(i)} elements were pulled")
         # unbounded domain: the first result must arrive within a pull budget
         if spec.get("unbounded") and n >= 1 and len(refs) == 1 and not ir["dvars"]:
             i = sorted(refs)[0][1]
